@@ -1,9 +1,13 @@
 #!/bin/sh
-# tools/integrate.sh <name>: merge builder branch agent-<name> into /verif main and list its /repo commits.
-set -e
+# tools/integrate.sh <name>: merge builder branch agent-<name> into /verif main (generated files are regenerated,
+# never merged) and list its /repo commits.
 n="$1"
 cd /verif
-git merge --no-edit "agent-$n" || { echo "MERGE CONFLICT in /verif"; exit 1; }
-python3 lib/mkmanifest.py
+git merge --no-commit --no-ff "agent-$n" >/dev/null 2>&1
+for f in MANIFEST.json known_findings.json DESIGN.md; do git checkout --ours -- $f 2>/dev/null; git add $f 2>/dev/null; done
+left=$(git diff --name-only --diff-filter=U)
+if [ -n "$left" ]; then echo "UNRESOLVED CONFLICTS:"; echo "$left"; exit 1; fi
+python3 lib/mkmanifest.py; python3 tools/mkdesign.py
+git add -A; git commit -qm "merge agent-$n" || true
 echo "--- repo commits on agent-$n not in main:"
-git -C /repo log --oneline --reverse main.."agent-$n" 2>/dev/null || git -C /repo log --oneline --reverse HEAD.."agent-$n"
+git -C /repo log --oneline --reverse main.."agent-$n"
